@@ -66,8 +66,8 @@ PROPS = {
     },
     "C12": {
         "pkg": "session", "level": "exploration",
-        "quick": {"stages": [st("^TestC12", 500)]},
-        "thorough": {"stages": [st("^TestC12", 6000, shards=12, timeout=3000), st("^TestC12", 800, shards=4, race=True, timeout=3000)]},
+        "quick": {"stages": [st("^TestC12Session", 500), st("^TestC12Regress", 1)]},
+        "thorough": {"stages": [st("^TestC12Session", 6000, shards=12, timeout=3000), st("^TestC12Session", 800, shards=4, race=True, timeout=3000), st("^TestC12Regress", 1)]},
     },
     "C13": {
         "pkg": "session", "level": "exploration",
